@@ -1,13 +1,16 @@
 """C08 — ConnectionHub.doInTransaction is all-or-nothing, re-raises the same exception, restores the hub, releases
 the low-level connection.
 
-correspondence: every body of <= 4 steps over {create new, create existing, update, delete} x an exception of
-either kind (Exception subclass / BaseException only) after every prefix (or none) x the calling thread (process-level
-binding, or one of two threads with their own thread-level connection) through the real `doInTransaction` with real
-threads (sequentialised), against the Lean model driver `drv_c08` (Model/Hub.lean).
+correspondence: hub configuration of the calling thread {thread binding only, process binding only, both set to different
+connections, both set to the SAME connection object} x connection.autoCommit {True, False, 'exception'} x every body of
+<= 3 steps over {create new, create existing, update, delete} (4-step bodies with the configuration rotating) x an
+exception of either kind (Exception subclass / BaseException only) after every prefix (or none), through the real
+`doInTransaction` with real threads (sequentialised; two bystander threads), against the Lean model driver `drv_c08`.
 oracle (independent of the model): a Python dict reference for the body; a third plain sqlite3 connection reads the
-committed rows; exception identity with `is`; every thread's hub resolution (object and level) before = after; pool
-length restored; the write lock is free afterwards.
+committed rows; a second plain connection inside the body sees none of the body's writes (the body really runs inside the
+transaction); exception identity with `is`; threadConnection and processConnection attributes (separately) and every
+thread's resolution before = after; pool length restored and no new low-level connection opened by repeated calls;
+pooled connection left in the mode autoCommit asks for; the write lock is free afterwards.
 """
 import atexit
 import gc
@@ -34,10 +37,11 @@ META = {
                    'non-Exception BaseException: when Transaction.__del__ runs).'),
     'level_note': ('Trusted: Lean kernel; the hand-written model Model/Hub.lean tied to the code by the exhaustive small-scope '
                    'correspondence; SQLite transaction semantics; CPython reference counting for Transaction.__del__.'),
-    'rule': ('case = (calling thread: 0 = process-level binding, 1/2 = own thread-level connection; body of <= 4 steps over '
-             '{create id 3, create id 1 (exists), update id 1, delete id 1}; raise point: none, or after k = 0..len steps an Exception '
-             'subclass or a BaseException-only exception); the whole space is enumerated; distinct = distinct cases; '
-             'non-trivial = the body has at least one step or raises'),
+    'rule': ('case = (hub configuration T/P/TP/S of the calling thread; autoCommit 1/0/X; body over {create id 3, create id 1 '
+             '(exists), update id 1, delete id 1}; raise point: none, or after k = 0..len steps an Exception subclass or a '
+             'BaseException-only exception); bodies of <= 3 steps: the full product is enumerated; 4 steps (thorough: the full '
+             'product; 5 steps rotating): every body x raise point with (configuration, autoCommit) rotating; distinct = distinct '
+             'cases; non-trivial = the body has at least one step or raises'),
     'trusted': ['SQLite transaction semantics (a rolled-back / never committed transaction leaves the committed rows unchanged)',
                 'CPython reference counting: dropping the traceback of the escaped BaseException runs Transaction.__del__'],
     'modelled': ['a BaseException that is not an Exception (KeyboardInterrupt, SystemExit, GeneratorExit) is not caught by '
@@ -45,7 +49,8 @@ META = {
                  'dies (refcounting); modelled as an explicit `collect` step, observed by dropping the exception in the harness',
                  'nested doInTransaction (binding already a Transaction) is outside the model',
                  'the pool is observed through len(connection._pool) relative to a warmed-up baseline'],
-    'assumptions': ['the calling thread\'s binding is a database connection (not a URI string, not already a transaction)'],
+    'assumptions': ['the calling thread\'s binding is a database connection (not a URI string, not already a transaction)',
+                    'exhaustive = the full product for bodies of <= 3 steps; longer bodies are enumerated with the hub configuration rotating'],
     'exhaustive': True,
 }
 
@@ -99,30 +104,55 @@ class Worker(threading.Thread):
 
     # -- commands
     def do_bind(self, conn):
-        self.e['hub'].threadConnection = conn
+        hub = self.e['hub']
+        if conn is None:
+            try:
+                del hub.threadConnection
+            except AttributeError:
+                pass
+        else:
+            hub.threadConnection = conn
         return True
 
     def do_setup(self):
         self.e['cls'].createTable(connection=self.e['conns'][0])
         return True
 
+    def do_open_raw(self):
+        # this thread's own plain DB-API connection: the observer used from inside the body
+        self.raw = sqlite3.connect(self.e['path'], isolation_level=None, timeout=0)
+        return True
+
+    def name_of(self, c):
+        names = {id(x): 'b%d' % i for i, x in enumerate(self.e['conns'])}
+        if c is None:
+            return '-'
+        return names.get(id(c), 't?' if type(c).__name__ == 'Transaction' else '??')
+
     def do_resolve(self):
+        """(this thread's threadConnection attribute, what this thread resolves to with its level)"""
         hub = self.e['hub']
         try:
-            hub.threadConnection
+            tc = hub.threadConnection
             lvl = 'T'
         except AttributeError:
+            tc = None
             lvl = 'P'
         try:
             c = hub.getConnection()
         except AttributeError:
-            return '-'
-        names = {id(x): 'b%d' % i for i, x in enumerate(self.e['conns'])}
-        return '%s:%s' % (lvl, names.get(id(c), 't?' if type(c).__name__ == 'Transaction' else '??'))
+            return self.name_of(tc), '-'
+        return self.name_of(tc), '%s:%s' % (lvl, self.name_of(c))
+
+    def do_ident(self):
+        return threading.get_ident()
 
     def do_run(self, steps, raise_at, exc_obj):
         hub, cls = self.e['hub'], self.e['cls']
         rec = {}
+
+        def probe():
+            return dict(self.raw.execute('SELECT id, v FROM %s' % self.e['table']).fetchall())
 
         def body():
             try:
@@ -138,8 +168,10 @@ class Worker(threading.Thread):
                         cls.get(k).destroySelf()
                 if raise_at == len(steps):
                     raise exc_obj
+                rec['raw_inside'] = probe()
             except BaseException as ex:
                 rec['left_body'] = ex
+                rec['raw_inside'] = probe()      # still inside doInTransaction: nothing may be visible yet
                 raise
             return 7
         try:
@@ -148,7 +180,7 @@ class Worker(threading.Thread):
         except BaseException as ex:
             self.slot['exc'] = ex          # keeps the traceback (and with it the transaction) alive until `collect`
             out = ('raised', ex, ex is rec.get('left_body'))
-        res = {'outcome': out[0], 'same_object': out[2], 'inside': rec.get('inside')}
+        res = {'outcome': out[0], 'same_object': out[2], 'inside': rec.get('inside'), 'raw_inside': rec.get('raw_inside')}
         if out[0] == 'returned':
             res['value'] = out[1]
         else:
@@ -172,6 +204,29 @@ class Worker(threading.Thread):
         return True
 
 
+CONFIGS = ['T', 'P', 'TP', 'S']
+AUTOCOMMITS = [('1', True), ('0', False), ('X', 'exception')]
+
+
+def configure(e, cfg, ac):
+    """hub configuration of the calling thread (worker 1) and connection.autoCommit of every connection"""
+    hub, conns = e['hub'], e['conns']
+    for c in conns:
+        c.autoCommit = ac
+    if cfg == 'T':
+        try:
+            del hub.processConnection
+        except AttributeError:
+            pass
+    else:
+        hub.processConnection = conns[0]
+    e['workers'][1].call('bind', {'T': conns[1], 'TP': conns[1], 'S': conns[0], 'P': None}[cfg])
+
+
+def used_conn(cfg):
+    return 1 if cfg in ('T', 'TP') else 0
+
+
 def env():
     if _env:
         return _env
@@ -185,19 +240,22 @@ def env():
     cls = type('C08Row', (SQLObject,), {'_connection': hub, 'v': IntCol()})
     conns = [sqlo.file_conn(path) for _ in range(3)]
     hub.processConnection = conns[0]
-    _env.update(dir=d, path=path, hub=hub, cls=cls, conns=conns)
+    _env.update(dir=d, path=path, hub=hub, cls=cls, conns=conns, table=cls.sqlmeta.table)
     workers = [Worker(t, _env) for t in range(3)]
     for w in workers:
         w.start()
     workers[0].call('setup')
-    workers[1].call('bind', conns[1])
     workers[2].call('bind', conns[2])
-    raw = sqlite3.connect(path, isolation_level=None, timeout=0)
-    _env.update(workers=workers, raw=raw, table=cls.sqlmeta.table)
-    # warm-up: one empty transaction per thread, so that every pool holds the thread's low-level connection
     for w in workers:
-        w.call('run', [], None, None)
-        w.call('collect')
+        w.call('open_raw')
+    raw = sqlite3.connect(path, isolation_level=None, timeout=0)
+    _env.update(workers=workers, raw=raw, ident=workers[1].call('ident'))
+    # warm-up: the calling thread uses connection 1 (T, TP) and connection 0 (P, S): one empty transaction on each, so that
+    # every pool holds the thread's low-level connection before the baseline is taken
+    for cfg in CONFIGS:
+        configure(_env, cfg, True)
+        workers[1].call('run', [], None, None)
+        workers[1].call('collect')
     gc.collect()
     gc.freeze()
     _env['baseline'] = [len(c._pool) for c in conns]
@@ -257,22 +315,27 @@ def reference(steps, raise_at, kind, exc_id):
 
 
 def gen_cases(ctx):
-    maxlen = 5 if ctx.tier == 'thorough' else 4
+    thorough = ctx.tier == 'thorough'
+    full_upto = 4 if thorough else 3
+    maxlen = 5 if thorough else 4
+    combos = [(cfg, ac) for cfg in CONFIGS for ac, _ in AUTOCOMMITS]
     cases = []
     n = 0
     import glob
     import json
     for path in sorted(glob.glob(os.path.join(os.path.dirname(os.path.dirname(os.path.abspath(__file__))), 'corpus', 'C08', '*.json'))):
         for c in json.load(open(path)).get('cases', []):
-            cases.append((c['tid'], tuple(c['word']), c['raise_after'], c['kind']))
+            cases.append((c['cfg'], c['ac'], tuple(c['word']), c['raise_after'], c['kind']))
     for ln in range(0, maxlen + 1):
         for word in itertools.product(ALPHABET, repeat=ln):
             points = [(None, None)] + [(k, kind) for k in range(ln + 1) for kind in 'EK']
             for (ra, kind) in points:
-                tids = (0, 1, 2)
-                for tid in tids:
-                    cases.append((tid, word, ra, kind))
+                for (cfg, ac) in (combos if ln <= full_upto else [combos[n % len(combos)]]):
+                    cases.append((cfg, ac, word, ra, kind))
                 n += 1
+    # grouped by configuration so that the hub is re-bound rarely
+    order = {c: i for i, c in enumerate(combos)}
+    cases.sort(key=lambda c: order[(c[0], c[1])])
     return cases
 
 
@@ -280,31 +343,51 @@ def inuse(e):
     return [b - len(c._pool) for b, c in zip(e['baseline'], e['conns'])]
 
 
+def observe_hub(e):
+    """threadConnection attribute of the caller, processConnection attribute, and what each thread resolves to"""
+    res = [w.call('resolve') for w in e['workers']]
+    proc = getattr(e['hub'], 'processConnection', None)
+    return 't1=%s p=%s%s' % (res[1][0], e['workers'][0].name_of(proc), ''.join(' %d:%s' % (t, r[1]) for t, r in enumerate(res)))
+
+
+def pool_mode(e, cfg):
+    """autocommit mode of the calling thread's pooled low-level connection (None when it cannot be told)"""
+    conn = e['conns'][used_conn(cfg)]
+    ll = getattr(conn, '_threadPool', {}).get(e['ident'])
+    if ll is None:
+        return None
+    return ll.isolation_level is None
+
+
 def run_case(ctx, e, case, idx, model_out):
-    tid, word, ra, kind = case
+    cfg, ac, word, ra, kind = case
     steps = concrete_steps(word)
     exc_id = 5 + idx % 90
     exc_obj = None
     if ra is not None:
         classes = E_CLASSES if kind == 'E' else K_CLASSES
         exc_obj = classes[idx % len(classes)]('case %d' % idx)
-    desc = {'tid': tid, 'level': 'process' if tid == 0 else 'thread', 'steps': [step_token(s) for s in steps],
+    desc = {'cfg': cfg, 'ac': ac, 'steps': [step_token(s) for s in steps],
             'raise_after': ra, 'exception': type(exc_obj).__name__ if exc_obj is not None else None}
-    key = 'C08:%s:%s:%s' % ('P0' if tid == 0 else 'T%d' % tid, ','.join(word) or '-', '-' if ra is None else '%d%s' % (ra, kind))
+    key = 'C08:%s:ac%s:%s:%s' % (cfg, ac, ','.join(word) or '-', '-' if ra is None else '%d%s' % (ra, kind))
+    if e.get('configured') != (cfg, ac):
+        configure(e, cfg, dict(AUTOCOMMITS)[ac])
+        e['configured'] = (cfg, ac)
     reset_db(e)
-    workers = e['workers']
-    before = [w.call('resolve') for w in workers]
-    res = workers[tid].call('run', steps, ra, exc_obj)
+    caller = e['workers'][1]
+    before = observe_hub(e)
+    res = caller.call('run', steps, ra, exc_obj)
     rows1 = raw_rows(e)
-    hub1 = [w.call('resolve') for w in workers]
+    hub1 = observe_hub(e)
     use1 = inuse(e)
-    workers[tid].call('collect')
+    caller.call('collect')
     if any(inuse(e)):
-        workers[tid].call('gc')          # a cycle kept the transaction alive: let the collector run __del__
+        caller.call('gc')          # a cycle kept the transaction alive: let the collector run __del__
         ctx.count('needed gc.collect() to finish the transaction')
     rows2 = raw_rows(e)
     use2 = inuse(e)
     made2 = [c._connectionCount for c in e['conns']]
+    mode = pool_mode(e, cfg)
     lock_free = True
     try:
         e['raw'].execute('BEGIN IMMEDIATE')
@@ -323,10 +406,12 @@ def run_case(ctx, e, case, idx, model_out):
         tag = 'raised %s:%d' % (res['exc_kind'], tag_id)
     ctx.case(key, nontrivial=bool(word) or ra is not None,
              sample={'case': desc, 'impl': tag, 'rows': fmt_rows(rows2)},
-             kind='%s len%d %s' % ('process' if tid == 0 else 'thread', len(word),
-                                   'no-raise' if ra is None else 'raise-' + kind))
+             kind='%s ac%s len%d %s' % (cfg, ac, len(word), 'no-raise' if ra is None else 'raise-' + kind))
     if res.get('inside') != 'Transaction':
         ctx.oracle_fail(key + ':not-in-transaction', 'inside the body the hub resolves to %s, not to a transaction' % res.get('inside'), desc)
+    if res.get('raw_inside') != INITIAL:
+        ctx.oracle_fail(key + ':visible-before-commit', 'a plain connection inside the body already sees%s: the body did not run inside '
+                        'the transaction' % fmt_rows(res.get('raw_inside') or {}), desc)
     if want_exc is None:
         if tag != 'returned 7':
             ctx.oracle_fail(key + ':outcome', 'the body returns 7 without raising but doInTransaction gave %s' % tag, desc)
@@ -341,26 +426,52 @@ def run_case(ctx, e, case, idx, model_out):
             ctx.oracle_fail(key + ':not-nothing', 'the body raised %s; committed rows are%s /%s, expected the initial%s'
                             % (want_exc, fmt_rows(rows1), fmt_rows(rows2), fmt_rows(INITIAL)), desc)
     if hub1 != before:
-        ctx.oracle_fail(key + ':hub', 'hub resolution per thread was %s, afterwards %s' % (before, hub1), desc)
+        ctx.oracle_fail(key + ':hub', 'hub attributes / resolution per thread were [%s], afterwards [%s]' % (before, hub1), desc)
     if any(use2):
         ctx.oracle_fail(key + ':pool', 'low-level connections not back in the pool: %s' % use2, desc)
     if made2 != e['made']:
-        ctx.oracle_fail(key + ':pool-growth', 'new low-level connections were opened: %s -> %s' % (e['made'], made2), desc)
+        ctx.oracle_fail(key + ':pool-growth', 'new low-level connections were opened by a repeated call: %s -> %s' % (e['made'], made2), desc)
         e['made'] = made2
+    if mode is not None and mode != bool(dict(AUTOCOMMITS)[ac]):
+        ctx.oracle_fail(key + ':pool-mode', 'the pooled low-level connection is left with autocommit=%s although connection.autoCommit=%r'
+                        % (mode, dict(AUTOCOMMITS)[ac]), desc)
     if not lock_free:
         ctx.oracle_fail(key + ':lock', 'the database write lock is still held after doInTransaction', desc)
     # ---- correspondence
-    impl = '%s | db%s | hub%s | inuse %s zombies %d | collected inuse %s db%s' % (
-        tag, fmt_rows(rows1), ''.join(' %d:%s' % (t, h) for t, h in enumerate(hub1)),
-        ','.join(str(x) for x in use1), sum(use1), ','.join(str(x) for x in use2), fmt_rows(rows2))
-    ctx.compare('doInTransaction outcome / committed rows / hub / pool: model = implementation', desc, model_out, impl)
+    impl = '%s | db%s | hub %s | inuse %s zombies %d | collected inuse %s auto %s db%s' % (
+        tag, fmt_rows(rows1), hub1, ','.join(str(x) for x in use1), sum(use1), ','.join(str(x) for x in use2),
+        'true' if (mode if mode is not None else bool(dict(AUTOCOMMITS)[ac])) else 'false', fmt_rows(rows2))
+    ctx.compare('doInTransaction outcome / committed rows / hub attributes / pool: model = implementation', desc, model_out, impl)
+
+
+def repeated_calls(ctx, e, only=None):
+    """three calls in a row per (configuration, autoCommit): the pool neither shrinks nor grows, no new low-level connection"""
+    for cfg in CONFIGS:
+        for ac, acv in AUTOCOMMITS:
+            if only is not None and only != (cfg, ac):
+                continue
+            configure(e, cfg, acv)
+            e['configured'] = (cfg, ac)
+            conn = e['conns'][used_conn(cfg)]
+            snap = (len(conn._pool), conn._connectionCount)
+            for i in range(3):
+                reset_db(e)
+                e['workers'][1].call('run', concrete_steps(('u1',)), None, None)
+                e['workers'][1].call('collect')
+            now = (len(conn._pool), conn._connectionCount)
+            ctx.case(('repeat', cfg, ac), kind='three calls in a row')
+            if now != snap:
+                ctx.oracle_fail('C08:%s:ac%s:repeat3:pool' % (cfg, ac), 'three doInTransaction calls in a row changed (pool length, '
+                                'low-level connections ever opened) from %s to %s' % (snap, now), {'cfg': cfg, 'ac': ac, 'steps': ['u1=100'],
+                                                                                                   'raise_after': None, 'exception': None, 'repeat': 3})
+                e['made'] = [c._connectionCount for c in e['conns']]
 
 
 def line_for(case, idx):
-    tid, word, ra, kind = case
+    cfg, ac, word, ra, kind = case
     steps = concrete_steps(word)
-    return '%d %s %s' % (tid, ','.join(step_token(s) for s in steps) or '-',
-                         '-' if ra is None else '%d:%s:%d' % (ra, kind, 5 + idx % 90))
+    return '%s %s %s %s' % (cfg, ac, ','.join(step_token(s) for s in steps) or '-',
+                            '-' if ra is None else '%d:%s:%d' % (ra, kind, 5 + idx % 90))
 
 
 def run(ctx):
@@ -369,6 +480,7 @@ def run(ctx):
     outs = ctx.model([line_for(c, i) for i, c in enumerate(cases)])
     for i, c in enumerate(cases):
         run_case(ctx, e, c, i, outs[i] if outs is not None else None)
+    repeated_calls(ctx, e)
 
 
 def replay(case):
@@ -389,9 +501,12 @@ def replay(case):
         def oracle_fail(self, key, what, c):
             self.fails.append('%s: %s' % (key, what))
     d = Dummy()
+    if case.get('repeat'):
+        repeated_calls(d, e, only=(case['cfg'], case['ac']))
+        return not d.fails, '\n'.join(d.fails) or 'property holds on this case'
     word = tuple(t.split('=')[0] for t in case['steps'])
     kind = None
     if case.get('exception'):
         kind = 'E' if case['exception'] in [c.__name__ for c in E_CLASSES] else 'K'
-    run_case(d, e, (case['tid'], word, case['raise_after'], kind), 0, None)
+    run_case(d, e, (case['cfg'], case['ac'], word, case['raise_after'], kind), 0, None)
     return not d.fails, '\n'.join(d.fails) or 'property holds on this case'
